@@ -9,6 +9,7 @@ mod lw;
 mod corpus;
 mod c12;
 mod c01model;
+mod c10io;
 mod c13;
 mod c10;
 mod c11;
@@ -49,6 +50,7 @@ fn main() {
     match args[1].as_str() {
         "c12" => c12::run(tier, seed, out, extra),
         "c01model" => c01model::run(tier, seed, out, extra),
+        "c10io" => c10io::run(tier, seed, out, extra),
         "c13" => c13::run(tier, seed, out, extra),
         "c10" => c10::run(tier, seed, out, extra),
         "c11" => c11::run(tier, seed, out, extra),
